@@ -752,6 +752,10 @@ func (w *world) direct(f []string) string {
 	if err != nil {
 		w.directErr = err.Error()
 	}
+	if os.Getenv("VERIF_DEBUG") != "" {
+		cp, _ := st.CommonPool(ctx)
+		debugf("direct %v -> err=%v common=%v", f, err, cp)
+	}
 	return fatalOr(err)
 }
 
@@ -1476,6 +1480,72 @@ func (g *gen) bal() (general []*big.Int, nonce []uint64, accts []*staking.Accoun
 	return
 }
 
+
+// aimRewards builds an AddRewards call aimed at the boundary at which the reward schedule exhausts the
+// common pool: the factor is chosen from the real state so that the reward of the first listed entity
+// equals the remaining common pool exactly (q == commonPool passes the "not enough left" test and leaves
+// zero for the entities that follow). Returns "" when no factor hits the balance exactly.
+func (g *gen) aimRewards(epoch int) string {
+	ctx := g.w.appState.NewContext(abciAPI.ContextEndBlock)
+	defer ctx.Close()
+	st := stakingState.NewMutableState(ctx.State())
+	cp, err := st.CommonPool(ctx)
+	if err != nil || cp.IsZero() {
+		return ""
+	}
+	steps, err := st.RewardSchedule(ctx)
+	if err != nil {
+		return ""
+	}
+	var scale *big.Int
+	for _, s := range steps {
+		if beacon.EpochTime(epoch) < s.Until {
+			scale = s.Scale.ToBigInt()
+			break
+		}
+	}
+	if scale == nil || scale.Sign() == 0 {
+		return ""
+	}
+	_, _, accts := g.bal()
+	D := staking.RewardAmountDenominator.ToBigInt()
+	C := cp.ToBigInt()
+	var funded []int
+	for _, e := range theCast.entities {
+		if accts[e].Escrow.Active.Balance.ToBigInt().Sign() > 0 {
+			funded = append(funded, e)
+		}
+	}
+	if len(funded) < 2 {
+		return ""
+	}
+	order := append([]int{}, funded...)
+	for i := range order {
+		j := i + g.r.Intn(len(order)-i)
+		order[i], order[j] = order[j], order[i]
+	}
+	for _, e := range order {
+		den := new(big.Int).Mul(accts[e].Escrow.Active.Balance.ToBigInt(), scale)
+		f := new(big.Int).Mul(C, D)
+		f.Add(f, new(big.Int).Sub(den, big.NewInt(1))).Div(f, den) // ceil(C*D/den)
+		q := new(big.Int).Mul(den, f)
+		q.Div(q, D)
+		if q.Cmp(C) != 0 {
+			continue
+		}
+		lst := []int{e}
+		for _, o := range funded {
+			if o != e {
+				lst = append(lst, o)
+			}
+		}
+		g.res.Count("aim:rewards-drain-common-pool-exactly")
+		debugf("aim: common=%s entity=%d aB=%s scale=%s f=%s q=%s list=%v", C, e, accts[e].Escrow.Active.Balance.ToBigInt(), scale, f, q, lst)
+		return fmt.Sprintf("addrewards %d %s %s", epoch, f, list(lst))
+	}
+	return ""
+}
+
 func (g *gen) anyAcct() int { return g.r.Intn(len(theCast.addrs)) }
 func (g *gen) entity() int  { return theCast.entities[g.r.Intn(len(theCast.entities))] }
 
@@ -1991,6 +2061,12 @@ func (g *gen) noise(escrows []int, max int) bool {
 				return true
 			}
 		case 2:
+			if op := g.aimRewards(g.curEpoch); op != "" {
+				if g.emit(op) {
+					return true
+				}
+				break
+			}
 			if g.emit(fmt.Sprintf("addrewards %d %d %s", g.curEpoch, []int{1, 1000, 100000000}[r.Intn(3)], list(escrows))) {
 				return true
 			}
@@ -2046,6 +2122,27 @@ func (g *gen) windDown(debint int) []string {
 		if r.Chance(4, 5) {
 			add(wpair{e, e})
 		}
+	}
+	// escrow accounts that are themselves delegators elsewhere: at completion the debonding queue then
+	// visits an account as escrow account, as delegator and as escrow account again within one epoch
+	// transition (queue order: epoch, delegator, escrow)
+	for _, e := range append([]int{}, escrows...) {
+		if !r.Chance(1, 2) {
+			continue
+		}
+		v := ents[r.Intn(len(ents))]
+		if v == e {
+			continue
+		}
+		add(wpair{e, v})
+		known := false
+		for _, x := range escrows {
+			known = known || x == v
+		}
+		if !known {
+			escrows = append(escrows, v)
+		}
+		g.res.Count("wind:escrow-account-also-delegator")
 	}
 	block := func(newEpoch int, body func() bool) bool {
 		if newEpoch > 0 {
@@ -2409,6 +2506,10 @@ func (g *gen) run(nblocks int) []string {
 				case 1:
 					stop = g.emit(fmt.Sprintf("tfc %d %s %d", g.entity(), g.amount(big.NewInt(int64(r.Intn(100000)))), r.Intn(2)))
 				case 2:
+					if op := g.aimRewards(epoch); op != "" {
+						stop = g.emit(op)
+						break
+					}
 					stop = g.emit(fmt.Sprintf("addrewards %d %d %s", epoch, []int{0, 1, 1000, 100000000}[r.Intn(4)], list([]int{g.entity(), g.entity()})))
 				case 3:
 					stop = g.emit(fmt.Sprintf("govdep %d %s", g.entity(), g.amount(big.NewInt(int64(r.Intn(1000))))))
